@@ -1427,6 +1427,18 @@ def run (guard : Bool) : State → List Op → State
   | σ, [] => σ
   | σ, op :: rest => run guard (applyOp guard σ op).1 rest
 
+/-- `p = Array<T>` / `p = Dic<T>` (`free(); NEW_ARRAY / NEW_DIC; resize / reserve(n); fill`): the target is REBOUND to a fresh
+container.  Modelled as the history `tmp = Var(x); p = tmp; tmp = Var()` of the model's own statements, `tmp` a root variable
+no statement of the harness can name (same final heap: the fresh block with capacity `litCap n` and count 1 held by the target,
+the old content of the target released once). -/
+def assignFreshOps (tmp : Nat) (p : Path) (ctor : Op) : List Op := [ctor, .setV p { root := tmp, steps := [] }, .drop tmp]
+
+/-- the state after `assignFreshOps` and the outcome of its assignment statement (the only one that can be refused) -/
+def assignFresh (guard : Bool) (σ : State) (tmp : Nat) (p : Path) (ctor : Op) : State × Except Err Unit :=
+  let σ1 := (applyOp guard σ ctor).1
+  let r := applyOp guard σ1 (.setV p { root := tmp, steps := [] })
+  ((applyOp guard r.1 (.drop tmp)).1, r.2)
+
 def initState (nslots : Nat) : State := { heap := [], slots := List.replicate nslots V.none }
 
 end AslModel.Var
